@@ -16,13 +16,13 @@ RULE = ("random merged S(Q) (Q>0, 8-40 points), r grid (5-25 points, Rmin 0 or >
         "correction flag, cutoff; a random legal sequence of 1-8 operations (thorough 1-30) out of transform / filter / lorch / "
         "keen-F(Q) / keen-G(r); every step is compared with a direct library call and with the other orders; "
         "non-trivial = the sequence contains a filter and at least one repeated operation")
-DIST = ["rsf", "lowq", "nops", "retuned", "qwin", "cutkind", "qzero"]
+DIST = ["rsf", "lowq", "nops", "retuned", "qwin", "cutkind", "qzero", "switch"]
 SHRINK = None
 TRUSTED = ["lean/PystogVerif/Model/Workflow.lean is a hand-written state machine for the five workflow steps whose numeric work is the "
            "generated code; tied to /repo by the op-sequence correspondence (all master dictionaries after every step)"]
 RSF = ["g(r)", "G(r)", "GK(r)"]
 SHORT = {"g(r)": "g", "G(r)": "G", "GK(r)": "GK"}
-OPS = ["T", "F", "L", "KF", "KG", "rho:=;T", "bcoh:=;T", "rgrid:="]
+OPS = ["T", "F", "L", "KF", "KG", "rho:=;T", "bcoh:=;T", "rgrid:=", "rsf:="]
 
 
 def gen(rng, i, tier):
@@ -45,6 +45,11 @@ def gen(rng, i, tier):
     # the grid they were computed on; a later explicit transform uses the new grid
     if rng.random() < 0.25:
         ops.insert(int(rng.integers(1, len(ops) + 1)), 7)
+    # 15%: the selectable real-space function is switched in between (op 8), on an instance whose merged-curve label the user may have
+    # renamed: "for each selectable real-space function" the steps after the switch give what the primitives give for the new function
+    switch = bool(rng.random() < 0.15)
+    if switch:
+        ops.insert(int(rng.integers(1, len(ops) + 1)), 8)
     cutoff = float(rng.uniform(0.6, 2.0))
     rdelta = float(rng.choice([0.1, 0.2, 0.25]))
     cutkind = "ordinary"
@@ -58,7 +63,7 @@ def gen(rng, i, tier):
     return dict(qzero=qzero, cutkind=cutkind, q=tolist(q), s=tolist(s), rsf=rsf, rho=float(10 ** rng.uniform(-2, -0.5)), bcoh=bcoh,
                 lowq=bool(rng.random() < 0.4), cutoff=cutoff, rmin=rmin, rmax=float(rng.uniform(3, 6)),
                 rdelta=rdelta, ops=ops, nops=nops, rho2=float(10 ** rng.uniform(-2, -0.5)), bcoh2=float(rng.uniform(0.5, 6)),
-                retuned=any(o >= 5 for o in ops), rmax2=float(rng.uniform(3, 6)), rdelta2=float(rng.choice([0.1, 0.2, 0.25, 0.05])),
+                retuned=any(o >= 5 for o in ops), switch=switch, rsf2=int(rng.integers(1, 3)), custom_title=bool(switch and rng.random() < 0.5), rmax2=float(rng.uniform(3, 6)), rdelta2=float(rng.choice([0.1, 0.2, 0.25, 0.05])),
                 qwin=(None if rng.random() < 0.6 else
                       [float(rng.choice([0.0, 0.1])), float(rng.choice([q[-1] + 5.0, q[-1] - 0.003, q[len(q) // 2] + 0.004, q[-1]]))]))
 
@@ -113,7 +118,7 @@ def apply(st, op):
         st.transform_merged()
     elif op in (5, 6):
         st.transform_merged()
-    elif op == 7:
+    elif op in (7, 8):
         pass
     elif op == 1:
         return st.fourier_filter()
@@ -144,6 +149,8 @@ def evaluate(case):
     kw = {"rho": case["rho"], "<b_coh>^2": case["bcoh"]}
     with workdir(), np.errstate(all="ignore"):
         st = mk(case)
+        if case.get("custom_title"):
+            st.gr_title = "my merged curve"      # a label of the user's own for the merged real-space curve
         q, s = st.q_master[st.sq_title].copy(), st.sq_master[st.sq_title].copy()
         r0, g0, _ = getattr(tr, f"S_to_{X}")(q, s, st.dr, lorch=False, **kw)
         ref = getattr(ff, f"{X}_using_S")(r0, g0, q, s, case["cutoff"], lorch=False, OmittedXrangeCorrection=case["lowq"], **kw)
@@ -156,6 +163,15 @@ def evaluate(case):
                 else:
                     st.bcoh_sqrd = case["bcoh2"]
                     kw["<b_coh>^2"] = case["bcoh2"]
+                r0, g0, _ = getattr(tr, f"S_to_{X}")(q, s, st.dr, lorch=False, **kw)
+                ref = getattr(ff, f"{X}_using_S")(r0, g0, q, s, case["cutoff"], lorch=False, OmittedXrangeCorrection=case["lowq"], **kw)
+            if op == 8:
+                # another real-space function is selected on the same instance: nothing computed for the old one may be taken for the new
+                new = RSF[(case["rsf"] + case["rsf2"]) % 3]
+                if new == "GK(r)" and kw["<b_coh>^2"] == 0.0:
+                    new = "G(r)"
+                st.real_space_function = new
+                X = SHORT[new]
                 r0, g0, _ = getattr(tr, f"S_to_{X}")(q, s, st.dr, lorch=False, **kw)
                 ref = getattr(ff, f"{X}_using_S")(r0, g0, q, s, case["cutoff"], lorch=False, OmittedXrangeCorrection=case["lowq"], **kw)
             if op == 7:
